@@ -150,7 +150,8 @@ fn history(w: &mut Stk, with_unbondings: bool) {
         }
     }
     if with_unbondings {
-        for op in [Op::Undelegate { d: 0, v: 0 }, Op::Undelegate { d: 0, v: 1 }] {
+        // two unbondings from V1 (the later one may be tiny: a slash can floor it to zero; seed C16h)
+        for op in [Op::Undelegate { d: 0, v: 0 }, Op::Undelegate { d: 0, v: 1 }, Op::Undelegate { d: 1, v: 0 }] {
             let n = w.unb.len();
             if !w.apply(&op, AMT) {
                 cut("setup panicked");
